@@ -27,6 +27,7 @@ CLASSES = {
   'PVDevice': {'file': 'pvdevice.py', 'scalars': [], 'args': []},
   'IDevice': {'file': 'idevice.py', 'scalars': [], 'args': ['a', 'b', 'c', 'bnd'], 'kernel': 'abc'},
   'IDevice2': {'file': 'idevice2.py', 'scalars': [], 'args': ['p_l', 'p_h', 'bnd'], 'kernel': 'hl'},
+  'GDevice': {'file': 'gdevice.py', 'scalars': [], 'args': ['g'], 'kernel': 'gpoly'},
   'SDevice': {'file': 'sdevice.py', 'scalars': ['c1', 'c2', 'c3', 'capacity', 'damage_depth', 'start', 'efficiency', 'sustainment'],
               'args': ['c1', 'c2', 'c3', 'capacity', 'damage_depth', 'start', 'efficiency', 'sustainment']},
 }
@@ -48,6 +49,10 @@ TARGETS = [
   ('IDevice2', 'cost', ['s:V', 'p:V'], 'S', 'vsum (IDevice2_costv n p_l p_h bnd s p)'),
   ('IDevice2', 'deriv', ['s:V', 'p:V'], 'V', 'idev2_deriv p_l p_h bnd s p'),
   ('IDevice2', 'hess', ['s:V'], 'M', 'idev2_hess p_l p_h bnd s'),
+  ('GDevice', 'costv', ['s:V', 'p:V'], 'V', "map (fun '(i, x) => x * nth i p n0 + horner (gpoly g i) (- x)) (idx s)"),
+  ('GDevice', 'cost', ['s:V', 'p:V'], 'S', 'gdev_cost g s p'),
+  ('GDevice', 'deriv', ['s:V', 'p:V'], 'V', 'gdev_deriv g s p'),
+  ('GDevice', 'hess', ['s:V'], 'M', 'gdev_hess g s'),
   ('SDevice', 'base', [], 'S', 'start * capacity'),
   ('SDevice', 'charge_at', ['r:V'], 'V', 'vadd (base_soc (start * capacity) sustainment n) (soc r sustainment efficiency)'),
   ('SDevice', 'flip_cost_at', ['r:V'], 'V',
@@ -60,7 +65,7 @@ TARGETS = [
   ('SDevice', 'cost', ['s:V', 'p:V'], 'S', 'vsum (SDevice_costv n c1 c2 c3 capacity damage_depth start efficiency sustainment s p)'),
 ]
 
-ARGTYPES = {'a': 'A', 'b': 'A', 'c1': 'A', 'c2': 'A', 'c3': 'A', 'capacity': 'A', 'damage_depth': 'A', 'start': 'A', 'efficiency': 'A',
+ARGTYPES = {'g': 'gcoeffs A', 'a': 'A', 'b': 'A', 'c1': 'A', 'c2': 'A', 'c3': 'A', 'capacity': 'A', 'damage_depth': 'A', 'start': 'A', 'efficiency': 'A',
             'sustainment': 'A', 'bnd': 'list (A * A)', 'p_l': 'param A', 'p_h': 'param A', 'c': 'param A'}
 
 
@@ -90,6 +95,40 @@ class Tx:
       if isinstance(n, ast.FunctionDef) and n.name == name and not any(isinstance(d, ast.Attribute) and d.attr == 'setter' for d in n.decorator_list):
         return n
     raise Unsupported('?:FunctionDef:method %s.%s not found' % (self.cls, name))
+
+  def check_gpoly(self):
+    """GDevice: the cost_coeffs setter must build the three polynomial objects the way gk_val / gk_d1 / gk_d2 assume:
+    1-D coefficients: np.poly1d(cost), .deriv(), .deriv(2); 2-D: Poly2D(cost).vector / .deriv / np.diag(.hess) per call."""
+    st = None
+    for n in self.clsnode.body:
+      if isinstance(n, ast.FunctionDef) and n.name == 'cost_coeffs' and any(isinstance(d, ast.Attribute) and d.attr == 'setter' for d in n.decorator_list):
+        st = n
+    if st is None:
+      U(self.clsnode, 'cost_coeffs setter not found')
+    arg = st.args.args[1].arg
+    want1 = {'_cost_fn': 'np.poly1d(%s)' % arg, '_cost_d1_fn': 'self._cost_fn.deriv()', '_cost_d2_fn': 'self._cost_fn.deriv(2)'}
+    want2 = {'_cost_fn': 'lambda x: Poly2D(%s).vector(x)' % arg, '_cost_d1_fn': 'lambda x: Poly2D(%s).deriv(x)' % arg,
+             '_cost_d2_fn': 'lambda x: np.diag(Poly2D(%s).hess(x))' % arg}
+    ifs = [x for x in st.body if isinstance(x, ast.If)]
+    if len(ifs) != 1:
+      U(st, 'cost_coeffs setter shape')
+    top = ifs[0]
+
+    def ndim_test(t, k):
+      return ast.unparse(t) in ('np.array(%s).ndim == %d' % (arg, k), 'ndim == %d' % k)
+
+    def assigns(body):
+      out = {}
+      for x in body:
+        if isinstance(x, ast.Assign) and len(x.targets) == 1 and isinstance(x.targets[0], ast.Attribute) and isinstance(x.targets[0].value, ast.Name) and x.targets[0].value.id == 'self':
+          out[x.targets[0].attr] = ast.unparse(x.value)
+        else:
+          U(x, 'statement in the cost_coeffs setter')
+      return out
+    if not ndim_test(top.test, 1) or assigns(top.body) != want1:
+      U(top, '1-D branch of the cost_coeffs setter')
+    if len(top.orelse) != 1 or not isinstance(top.orelse[0], ast.If) or not ndim_test(top.orelse[0].test, 2) or assigns(top.orelse[0].body) != want2:
+      U(top, '2-D branch of the cost_coeffs setter')
 
   def check_kernel(self):
     """The kernel object must be built in __init__ exactly as the helpers assume."""
@@ -196,7 +235,8 @@ class Tx:
           return '(map (fun x => nmin x n0) %s)' % t, 'V'
       if f.attr == 'array' and len(e.args) == 1:
         return self.listexpr(e.args[0], env)
-      U(e, 'np.%s' % f.attr)
+      if f.attr != 'diag':
+        U(e, 'np.%s' % f.attr)
     # utils
     if isinstance(f, ast.Name) and f.id == 'base_soc' and len(e.args) == 1 and [k.arg for k in e.keywords] == ['s', 'l'] and self.is_len_self(e.keywords[1].value):
       b, tb = self.expr(e.args[0], env)
@@ -209,8 +249,24 @@ class Tx:
       ef, te = self.expr(e.keywords[1].value, env)
       if (tr, ts, te) == ('V', 'S', 'S'):
         return '(soc %s %s %s)' % (r, s, ef), 'V'
+    # np.diag(vector)
+    if isinstance(f, ast.Attribute) and isinstance(f.value, ast.Name) and f.value.id == 'np' and f.attr == 'diag' and len(e.args) == 1 and not e.keywords:
+      t, ty = self.expr(e.args[0], env)
+      if ty == 'V':
+        return '(diag %s)' % t, 'M'
+      U(e, 'np.diag of %s' % ty)
+    # GDevice: the three polynomial objects built by the cost_coeffs setter
+    if self.info.get('kernel') == 'gpoly' and isinstance(f, ast.Attribute) and isinstance(f.value, ast.Name) and f.value.id == 'self' and \
+       f.attr in ('_cost_fn', '_cost_d1_fn', '_cost_d2_fn') and len(e.args) == 1 and not e.keywords:
+      if self.kernel_ok is None:
+        self.check_gpoly()
+        self.kernel_ok = True
+      t, ty = self.expr(e.args[0], env)
+      if ty != 'V':
+        U(e, 'polynomial argument')
+      return '(%s g %s)' % ({'_cost_fn': 'gk_val', '_cost_d1_fn': 'gk_d1', '_cost_d2_fn': 'gk_d2'}[f.attr], t), 'V'
     # kernel object: self._cost_fn(s), self._cost_fn.deriv(s), self._cost_fn.hess(s)
-    kern = self.info.get('kernel')
+    kern = self.info.get('kernel') if self.info.get('kernel') in ('abc', 'hl') else None
     def is_cf(x):
       return isinstance(x, ast.Attribute) and x.attr == '_cost_fn' and isinstance(x.value, ast.Name) and x.value.id == 'self'
     if kern and len(e.args) == 1 and not e.keywords:
@@ -316,7 +372,7 @@ COQTYPE = {'S': 'A', 'V': 'list A', 'M': 'list (list A)'}
 
 
 def gen_classes(repo):
-  out = ['(* GENERATED by translator/classes_tx.py from device_kit/{device,cdevice,pvdevice,idevice,idevice2,sdevice}.py -- do not edit. *)',
+  out = ['(* GENERATED by translator/classes_tx.py from device_kit/{device,cdevice,pvdevice,idevice,idevice2,gdevice,sdevice}.py -- do not edit. *)',
          'From Coq Require Import ZArith List Bool Arith.', 'From DK Require Import Num Vec.', 'From DK.Gen Require Import Kernels.',
          'From DK.Model Require Import Leaf.', 'Import ListNotations.', 'Section Classes.', 'Context {A : Type} `{Num A}.',
          'Local Open Scope num_scope.',
@@ -333,6 +389,10 @@ def gen_classes(repo):
          "  map (fun '(i, x) => hl_deriv x (pnth p_l i) (pnth p_h i) (lo bnd i) (hi bnd i)) (idx s).",
          'Definition vk_hl_hess (p_l p_h : param A) (bnd : list (A * A)) (s : list A) : list A :=',
          "  map (fun '(i, x) => hl_hess x (pnth p_l i) (pnth p_h i) (lo bnd i) (hi bnd i)) (idx s).", '']
+  out += ['(* np.poly1d(c)(x) broadcast over the slots / Poly2D(cs).vector(x): one polynomial per slot; .deriv() / .deriv(2) (hand-written NumPy semantics) *)',
+          'Definition gk_val (g : gcoeffs A) (x : list A) : list A :=', "  map (fun '(i, v) => horner (gpoly g i) v) (idx x).",
+          'Definition gk_d1 (g : gcoeffs A) (x : list A) : list A :=', "  map (fun '(i, v) => horner (pderiv (gpoly g i)) v) (idx x).",
+          'Definition gk_d2 (g : gcoeffs A) (x : list A) : list A :=', "  map (fun '(i, v) => horner (pderiv (pderiv (gpoly g i))) v) (idx x).", '']
   trees = {}
   txs = {}
   untranslated = []
